@@ -499,6 +499,8 @@ class ThreadPoolServer(Server):
     def _accept_method(self, sock):
         '''Implementation of the accept method : only pushes the work to the internal queue.
         In case the queue is full, raises an AsynResultTimeout error'''
+        accepted = sock
+        conn = None
         try:
             addrinfo = None
             # authenticate and build connection object
@@ -514,8 +516,12 @@ class ThreadPoolServer(Server):
         except Exception:
             err_msg = "Failed to serve client for {}, caught exception".format(addrinfo)
             self.logger.exception(err_msg)
+            if conn is not None:
+                conn.close()
             sock.close()
             self.clients.discard(sock)
+            # the authenticator may have handed back another socket object than the accepted one
+            self.clients.discard(accepted)
 
 
 class ForkingServer(Server):
